@@ -25,7 +25,13 @@ def _bencode(data: typing.Union[int, bytes, bytearray, str, list, tuple, dict]) 
         raise TypeError(f"Cannot bencode {type(data)}")
 
 
-def _bdecode(data: bytes, start_index: int = 0) -> typing.Tuple[typing.Union[int, bytes, list, tuple, dict], int]:
+MAX_NESTING_DEPTH = 32  # protocol messages nest at most four levels deep
+
+
+def _bdecode(data: bytes, start_index: int = 0,
+             depth: int = 0) -> typing.Tuple[typing.Union[int, bytes, list, tuple, dict], int]:
+    if depth > MAX_NESTING_DEPTH:
+        raise DecodeError(f"nested deeper than {MAX_NESTING_DEPTH} levels")
     if data[start_index] == ord('i'):
         end_pos = data[start_index:].find(b'e') + start_index
         return int(data[start_index + 1:end_pos]), end_pos + 1
@@ -33,15 +39,15 @@ def _bdecode(data: bytes, start_index: int = 0) -> typing.Tuple[typing.Union[int
         start_index += 1
         decoded_list = []
         while data[start_index] != ord('e'):
-            list_data, start_index = _bdecode(data, start_index)
+            list_data, start_index = _bdecode(data, start_index, depth + 1)
             decoded_list.append(list_data)
         return decoded_list, start_index + 1
     elif data[start_index] == ord('d'):
         start_index += 1
         decoded_dict = {}
         while data[start_index] != ord('e'):
-            key, start_index = _bdecode(data, start_index)
-            value, start_index = _bdecode(data, start_index)
+            key, start_index = _bdecode(data, start_index, depth + 1)
+            value, start_index = _bdecode(data, start_index, depth + 1)
             decoded_dict[key] = value
         return decoded_dict, start_index
     else:
